@@ -52,6 +52,32 @@ CLAIMED.update({
             "DESIGN.md section 4, C04"),
 })
 
+LINK = ("bounded symbolic execution of the real output/adapter/input link code (symx proxies + z3) over symbolic "
+        "publication/request sequences; counterexamples replayed concretely")
+CLAIMED.update({
+    "C09": (LINK,
+            "For 1-4 consumers (direct, behind pass-through adapters incl. two inputs behind one shared adapter, behind "
+            "push-based adapters) every event sequence up to the stated length with arbitrary integer-microsecond gaps "
+            "and per-consumer non-decreasing request times is explored; every pull of the real Output equals the pull of "
+            "an unlimited-history twin (same tag or same error class), and z3 discharges the retention bound once all "
+            "consumers have pulled. Bounded by sequence length; arbitrarily long runs are not claimed.",
+            "DESIGN.md section 4, C09 (a)"),
+    "C11": (LINK,
+            "For NextTime/PreviousTime/LinearTime/StepTime, for publish/request patterns with up to 4 publications and 3 "
+            "requests, with symbolic real values, symbolic request times, concrete irregular as well as fully symbolic "
+            "gaps and a symbolic step position in [0,1], z3 refutes 'delivered != definition' on every feasible path and "
+            "shows that refusals coincide with requests outside the published range; the definition is built over all "
+            "publications, so buffer clearing cannot matter. Reals stand in for floats.",
+            "DESIGN.md section 4, C11"),
+    "C13": (LINK,
+            "For chains of 1-3 DelayFixed/DelayToPull(n<=3)/DelayToPush adapters mixed with Scale, symbolic delays, gaps and "
+            "non-decreasing requests: the time arriving at the source output equals the composition of the documented "
+            "shifts in pull order (z3 refutes inequality on every path) and the delivered payload is the source's payload "
+            "for that time; inside real Composition runs the same equality links the driver's scheduling time to the "
+            "actual request.",
+            "DESIGN.md section 4, C13"),
+})
+
 PENDING = {}
 
 NOT_APPLICABLE = {
